@@ -5,7 +5,8 @@ package main
 //
 //	op "load": parser.New(...).Load into a probe struct whose fields are untyped, so that the merged tree is observed
 //	           before typed decoding (tie of the tree model)
-//	op "cfg":  config.NewConfiguration (real Configuration struct, real decode hooks, real schema validation)
+//	op "cfg":  config.NewConfiguration (real Configuration struct, real decode hooks, real schema validation); with
+//	           "at": [path] only the scalar at that path of the dumped configuration is reported ({"leaf": ...})
 //	op "validate": config.ValidateConfig on the file alone
 //	op "leaf": parser.New(...).Load into a probe struct with typed fields (string, int, bool, duration, nested, list,
 //	           structures inside a list, free-form maps; optionally pre-filled with defaults) with the decode hooks
@@ -13,6 +14,11 @@ package main
 //	op "yaml": how gopkg.in/yaml.v3 reads the text of an environment variable (what env.go toRealType does)
 //	op "history": several config.NewConfiguration loads one after the other in THIS process; every result is dumped
 //	           when it is returned and again after all later loads
+//	op "readings": for every text, what each of the three places that let a YAML decoder decide makes of it as the value
+//	           of a property: "env" / "file" = what the real parser.Load delivers for an untyped property given by a
+//	           variable (typed by env.go toRealType) / by the file (read by yaml.go koanfFromYaml), "validator" = the JSON
+//	           type the real ValidateConfig sees, found out with files that say the text where the schema wants a string /
+//	           a boolean / an integer (the decoder is inside ValidateConfig)
 //
 // Environment variables are set in-process under a private prefix, in the order given by the case; every load
 // is repeated (Go map iteration order is random and the loader goes through maps), all distinct outcomes
@@ -133,6 +139,8 @@ func c20Scalar(v any) any {
 		return map[string]any{"$float": strconv.FormatFloat(t, 'f', -1, 64)}
 	case map[string]any, []any:
 		return map[string]any{"$collection": true}
+	case time.Time:
+		return map[string]any{"$time": true}
 	default:
 		return map[string]any{"$other": true}
 	}
@@ -150,6 +158,37 @@ func c20Dump(cfg *config.Configuration) any {
 	}
 
 	return tree
+}
+
+// c20At: the scalar at a path (keys and list indices) of the dumped configuration, as c20Scalar shows it; nil where
+// there is none
+func c20At(tree any, at []any) any {
+	node := tree
+
+	for _, seg := range at {
+		switch key := seg.(type) {
+		case string:
+			m, ok := node.(map[string]any)
+			if !ok {
+				return nil
+			}
+
+			node = m[key]
+		case json.Number:
+			l, ok := node.([]any)
+			idx, err := key.Int64()
+
+			if !ok || err != nil || idx < 0 || int(idx) >= len(l) {
+				return nil
+			}
+
+			node = l[idx]
+		default:
+			return nil
+		}
+	}
+
+	return c20Scalar(node)
 }
 
 func c20WriteFile(content string) (string, error) {
@@ -234,6 +273,102 @@ func c20History(c map[string]any) (any, error) {
 	return map[string]any{"then": then, "now": now}, nil
 }
 
+// c20ValidatorProbes: one place per JSON type in schema/config.schema.json (%s = the text); the answer is the first
+// type under which ValidateConfig lets the file pass
+var c20ValidatorProbes = []struct{ typ, doc string }{
+	{"string", "serve:\n  proxy:\n    host: %s\n"},
+	{"boolean", "metrics:\n  enabled: %s\n"},
+	{"integer", "serve:\n  proxy:\n    port: %s\n"},
+}
+
+func c20ValidatorSees(text string) string {
+	seen := "other"
+
+	for _, probe := range c20ValidatorProbes {
+		name, err := c20WriteFile(strings.Replace(probe.doc, "%s", text, 1))
+		if err != nil {
+			return "err:io"
+		}
+
+		err = config.ValidateConfig(name)
+
+		os.Remove(name)
+
+		if err == nil {
+			return probe.typ
+		}
+
+		if kind := c20ErrKind(err); kind != "err:schema" && kind != "err:schema-required" {
+			seen = "unreadable"
+		}
+	}
+
+	return seen
+}
+
+// c20SubstEnv: variables a configuration file may refer to (`${VERIFC20SUB_PORT}`); their names do not start with the
+// prefix of the configuration variables, so they define no property
+var c20SubstEnv = map[string]string{"VERIFC20SUB_PORT": "9000", "VERIFC20SUB_FLAG": "true", "VERIFC20SUB_HOST": "yes"}
+
+// c20ValProbe: one untyped property; what the loader delivers for it is the reading of the loader
+type c20ValProbe struct {
+	Val any `koanf:"val"`
+}
+
+// c20LoaderReads: the real parser.Load with the text as the value of the property `val`, given by the file
+// (`val: text`, read by yaml.go koanfFromYaml) or by the variable <prefix>VAL (typed by env.go toRealType)
+func c20LoaderReads(text string, fromFile bool) (out any) {
+	defer func() {
+		if r := recover(); r != nil {
+			out = map[string]any{"$panic": true}
+		}
+	}()
+
+	c20ClearEnv()
+	defer c20ClearEnv()
+
+	opts := []parser.Option{parser.WithEnvPrefix(c20Prefix)}
+
+	if fromFile {
+		name, err := c20WriteFile("val: " + text + "\n")
+		if err != nil {
+			return map[string]any{"$io": true}
+		}
+
+		defer os.Remove(name)
+
+		opts = append(opts, parser.WithConfigFile(name))
+	} else if err := os.Setenv(c20Prefix+"VAL", text); err != nil {
+		return map[string]any{"$io": true}
+	}
+
+	probe := c20ValProbe{}
+	if err := parser.New(opts...).Load(&probe); err != nil {
+		return map[string]any{"$unreadable": true}
+	}
+
+	return c20Scalar(probe.Val)
+}
+
+func c20Readings(c map[string]any) (any, error) {
+	res := []any{}
+
+	for k, v := range c20SubstEnv {
+		os.Setenv(k, v)
+		defer os.Unsetenv(k)
+	}
+
+	for _, raw := range getStrs(c, "raw") {
+		res = append(res, map[string]any{
+			"env":       c20LoaderReads(raw, false),
+			"file":      c20LoaderReads(raw, true),
+			"validator": c20ValidatorSees(raw),
+		})
+	}
+
+	return res, nil
+}
+
 func c20ClearEnv() {
 	for _, kv := range os.Environ() {
 		if strings.HasPrefix(kv, c20Prefix) {
@@ -312,6 +447,10 @@ func c20LoadOnce(c map[string]any, file string) (out any) {
 			}
 
 			return c20ErrKind(err)
+		}
+
+		if at, ok := c["at"].([]any); ok {
+			return map[string]any{"leaf": c20At(c20Dump(cfg), at)}
 		}
 
 		return c20Dump(cfg)
@@ -393,6 +532,8 @@ func runConfig(c map[string]any) (any, error) {
 	switch getStr(c, "op") {
 	case "history":
 		return c20History(c)
+	case "readings":
+		return c20Readings(c)
 	case "yaml":
 		res := []any{}
 
